@@ -21,7 +21,8 @@ RULE += (
     ' Exhaustive reuse part: every accepted parameter tuple with max_length <= 3 (thorough: 4) x every earlier stream of 1..5 (6) frames x how it was left (list run, generator unstarted / advanced one token and abandoned, two generators requested up front) x every later stream of 1..4 (5) frames: the used tokenizer must satisfy the property like a fresh one.'
 )
 MUST_HIT = ["cut_in_silence_with_drop", "init_candidate_abandoned", "kind_obj", "kind_int", "deliv_cb", "deliv_gen", "reused_tokenizer"]
-ASSUMPTIONS = ["harness sources hand out frames in stream order (vf/tok.py)"]
+ASSUMPTIONS = [
+    "frame kind 'stateful': a validator whose k-th answer is the k-th bit of the pattern (a validator with a memory, e.g. an adaptive threshold) - meaningful only if the tokenizer consults the validator once per frame, in stream order","harness sources hand out frames in stream order (vf/tok.py)"]
 
 BOUNDS = {
     "quick": dict(L=10, M=3, hyp_examples=1200, maxlen=64, maxmax=8),
@@ -79,7 +80,7 @@ def check_case(case, rec):
             raise Violation(f"token ({s},{e}) carries {len(fr)} frames", case)
         for k, f in enumerate(fr):
             want = frames[s + k]
-            same = (f is want) if kind in ("obj", "np") else (f == want)
+            same = (f is want) if kind in ("obj", "np", "stateful", "nparr") else (f == want and type(f) is type(want))
             if not same:
                 raise Violation(
                     f"token ({s},{e}): frame {k} is {f!r}, stream position {s + k} holds {want!r}",
